@@ -61,4 +61,18 @@ Proof.
     + f_equal. lia.
     + symmetry. apply lookup_ge_None. lia.
 Qed.
-Print Assumptions rd_wr_extend.
+
+(* sub-windows *)
+Lemma rd_take d o l a : a ≤ l → rd d o a = take (N.to_nat a) (rd d o l).
+Proof.
+  intros Ha. apply list_eq; intros i. rewrite rd_lookup.
+  destruct (decide (i < N.to_nat a)%nat).
+  - rewrite lookup_take by done. rewrite rd_lookup. case_decide; [done|lia].
+  - by rewrite lookup_take_ge by lia.
+Qed.
+Lemma rd_drop d o l a : a ≤ l → rd d (o + a) (l - a) = drop (N.to_nat a) (rd d o l).
+Proof.
+  intros Ha. apply list_eq; intros i. rewrite rd_lookup, lookup_drop, rd_lookup.
+  repeat case_decide; try lia; try done. f_equal. lia.
+Qed.
+Print Assumptions rd_drop.
